@@ -606,7 +606,16 @@ def reduce_bool_symbolic(I, a, axes, keepdim, kind):
 
 
 def t_sum(I, a, dim=None, keepdim=False, axis=None, **kw):
-    return _reduce(I, a, dim if dim is not None else axis, keepdim, "sum")
+    r = _reduce(I, a, dim if dim is not None else axis, keepdim, "sum")
+    av = lift(a)
+    if av.dtype == "bool" and dim is None and axis is None and av.rank >= 1 and isinstance(a, Tensor):
+        # the number of True entries of a mask IS the number of positions torch.where / boolean indexing select
+        try:
+            sel = tshape.where_rows(I, a)[0].meta["sel"][0]
+            I.ctx.axiom(zint(r.val.at([() for _ in r.val.shape])) == zint(sel.count))
+        except Unsupported:
+            pass
+    return r
 
 
 def t_mean(I, a, dim=None, keepdim=False, axis=None, **kw):
